@@ -104,6 +104,20 @@ func openQ4(path string, hdr *headerV0) (*q4, error) {
 		return nil, err
 	}
 
+	// A Q4 file that is not complete, e.g. left behind by an interrupted write, must not be served:
+	// reads past its end would be substituted with tail padding shares.
+	info, err := f.Stat()
+	if err != nil {
+		f.Close()
+		return nil, fmt.Errorf("getting file info: %w", err)
+	}
+	odsSize := hdr.SquareSize() / 2
+	expectedSize := int64(hdr.ShareSize()) * int64(odsSize) * int64(odsSize)
+	if info.Size() != expectedSize {
+		f.Close()
+		return nil, fmt.Errorf("file size mismatch: expected %d, got %d", expectedSize, info.Size())
+	}
+
 	return &q4{
 		hdr:  hdr,
 		file: f,
